@@ -25,6 +25,7 @@ def run(chk):
     run_templates(chk, meta, toks, PREFIXES, kinds=["bare-mem", "bare-disk", "tree"], label="store-meta")
     run_http_templates(chk, toks, 4 if chk.tier == "quick" else 50, 20, "git", PREFIXES, git_checks=True)
     failing_ops_probe(chk)
+    recreate_probe(chk)
 
 
 def failing_ops_probe(chk):
@@ -83,6 +84,68 @@ def failing_ops_probe(chk):
                     chk.violation("C09:failed-request-left-a-trace@" + fe,
                                   f"{fe}: {m} {t[:60]} answered {r.status}; afterwards: {pr}", rep)
             chk.case(("failing-ops", fe), nontrivial=True)
+        finally:
+            srv.close()
+            shutil.rmtree(root, ignore_errors=True)
+
+
+def recreate_probe(chk):
+    """A collection that exists before the server starts, on a branch with another name than the one new
+    repositories get, is read, deleted and created again at the same URL in one server process; every
+    later change must be one commit on the branch HEAD names, with index and working tree in step."""
+    from httpdrv import make_server
+    from storedrv import git_cli_checks
+    import dulwich.repo
+    from xandikos.store.git import TreeGitStore
+    from xandikos.icalendar import ICalendarFile
+    P = "/user/calendars/old/"
+    for fe in ("wsgi", "aiohttp"):
+        root = scratch_dir()
+        srv = make_server(fe, root + "/data", prefix="/")
+        d = root + "/data" + P.rstrip("/")
+        try:
+            st = TreeGitStore.create(d)
+            new_default = st.repo.refs.read_ref(b"HEAD")
+            other = b"refs/heads/trunk" if new_default != b"ref: refs/heads/trunk" else b"refs/heads/stem"
+            st.repo.refs.set_symbolic_ref(b"HEAD", other)
+            st = TreeGitStore.open_from_path(d)
+            st.load_extra_file_handler(ICalendarFile)
+            st.import_one("before.ics", "text/calendar", [vevent("before")])
+            del st
+            steps = [("PROPFIND", P, {"Depth": "1"}, b""), ("GET", P + "before.ics", {}, b""),
+                     ("DELETE", P, {}, b""), ("MKCALENDAR", P, {}, b""),
+                     ("PUT", P + "x.ics", {"Content-Type": "text/calendar"}, vevent("x1")),
+                     ("PUT", P + "y.ics", {"Content-Type": "text/calendar"}, vevent("y1")),
+                     ("PUT", P + "x.ics", {"Content-Type": "text/calendar"}, vevent("x1", summary="changed")),
+                     ("DELETE", P + "y.ics", {}, b"")]
+            for (m, t, h, b) in steps:
+                def head_commits():
+                    if not os.path.isdir(os.path.join(d, ".git")):
+                        return None
+                    repo = dulwich.repo.Repo(d)
+                    try:
+                        try:
+                            return [e.commit.id for e in repo.get_walker()]
+                        except KeyError:
+                            return []
+                    finally:
+                        repo.close()
+                c0 = head_commits()
+                r = srv.request(m, t, h, b)
+                c1 = head_commits()
+                chk.count("recreate-probe:%s:%d" % (m, r.status))
+                rep = {"level": "http", "frontend": fe, "request": [m, t, h], "status": r.status,
+                       "setup": "pre-existing tree repository on branch %s" % other.decode()}
+                problems = git_cli_checks(d, False) if os.path.isdir(os.path.join(d, ".git")) else []
+                if m in ("PUT", "DELETE") and t != P and r.status in (201, 204) and c0 is not None and c1 is not None:
+                    if len(c1) != len(c0) + 1 or c1[1:] != c0:
+                        problems.append("an acknowledged change took the branch HEAD names from %d to %d commits (the new "
+                                        "head's ancestry is %s the old head)" % (len(c0), len(c1),
+                                                                                 "" if c1[1:] == c0 else "not"))
+                for pr in problems:
+                    chk.violation("C09:history-not-on-the-collections-branch@" + fe,
+                                  f"{fe}: {m} {t} answered {r.status}; afterwards: {pr}", rep)
+            chk.case(("recreate", fe), nontrivial=True)
         finally:
             srv.close()
             shutil.rmtree(root, ignore_errors=True)
